@@ -1,5 +1,6 @@
 use super::helper::BoundingBox;
 use super::helper::Float;
+use super::signed_area::signed_area;
 use geo_types::Coord;
 
 #[derive(Debug, Clone, Copy, PartialEq)]
@@ -128,6 +129,13 @@ where
     sqr_kross = kross * kross;
 
     if sqr_kross > F::zero() {
+        return LineIntersection::None;
+    }
+
+    // Both cross products above are plain floating point expressions and can cancel to zero for
+    // segments that are only nearly parallel (long edges with large coordinates). Only segments
+    // that are exactly collinear may be reported as overlapping.
+    if signed_area(a1, a2, b1) != 0. || signed_area(a1, a2, b2) != 0. {
         return LineIntersection::None;
     }
 
